@@ -1,16 +1,21 @@
 package main
 
-import "fmt"
+import (
+	"bytes"
+	"fmt"
+
+	otr3 "github.com/coyim/otr3"
+)
 
 func init() { generators["C04"] = genC04 }
 
 // C04: exactly-once in-order delivery over FIFO channels, any interleaving, across rotations
 func genC04(c *Ctx) {
 	c.Rep.Rule = "two real conversations after a real key exchange; random interleavings of Send by either side and FIFO deliveries (with clock ticks that force heartbeats); every step compared with the abstract conversation machine; oracle: per direction the plaintext sequence received equals the sequence sent; distinct = scenario"
-	n := 8
+	n := 20
 	steps := 40
 	if c.Thorough() {
-		n, steps = 150, 120
+		n, steps = 200, 120
 	}
 	for i := 0; i < n; i++ {
 		ver := []int{polV3, polV2, polV2 | polV3}[c.R.Intn(3)]
@@ -50,6 +55,14 @@ func c04Traffic(c *Ctx, s *Sys, steps int) {
 		switch x := c.R.Intn(10); {
 		case x < 4:
 			tn++
+			if s.ps[a].frag > 0 && c.R.Chance(1, 2) {
+				// pick a piece size that divides the encoded length of this party's previous data message exactly (the
+				// next one is most likely as long): the boundary where the last piece is full - or empty
+				if sz := exactFragmentSizes(s, a); len(sz) > 0 {
+					s.SetFragmentSize(a, sz[c.R.Intn(len(sz))])
+					c.Count("fragment-size:exact-multiple")
+				}
+			}
 			s.Send(a, []byte(fmt.Sprintf("t%d-%d", a, tn)))
 			c.Count("op:send")
 		case x < 9:
@@ -65,6 +78,39 @@ func c04Traffic(c *Ctx, s *Sys, steps int) {
 	// drain
 	s.Pump(1, 2, 200)
 	c04Oracle(c, s)
+}
+
+// exactFragmentSizes: the fragment sizes for which party a's most recent data message splits into pieces whose
+// last one is empty or exactly full
+func exactFragmentSizes(s *Sys, a int) []int {
+	p := s.ps[a]
+	var last []byte
+	for i := len(p.outs) - 1; i >= 0 && last == nil; i-- {
+		if w := parseWire(p.outs[i]); w.kind == 4 {
+			last = p.outs[i]
+		}
+	}
+	if last == nil {
+		return nil
+	}
+	st := otr3.VerifSnapshot(p.c)
+	var out []int
+	for size := hdrLen(st.Version) + 2; size < 420; size++ {
+		pieces := otr3.VerifFragment(st.Version, st.OurTag, st.TheirTag, last, uint16(size))
+		if len(pieces) < 2 {
+			continue
+		}
+		lp := pieces[len(pieces)-1]
+		// payload of the last piece: between the last two commas
+		parts := bytes.Split(lp, []byte(","))
+		if len(parts) >= 2 {
+			pay := parts[len(parts)-2]
+			if len(pay) == 0 || len(lp) == size {
+				out = append(out, size)
+			}
+		}
+	}
+	return out
 }
 
 func c04Oracle(c *Ctx, s *Sys) {
